@@ -243,6 +243,15 @@ func JudgeOpts(rn *logq.Runner, db *logq.DB, ch *chsql.DB, req *logq.Request, sq
 		gotByKey[k] = append(gotByKey[k], pt{key: k, ts: e.TimestampNS, v: e.Value})
 	}
 	for k, ps := range gotByKey {
+		// one point per series and timestamp
+		seenTs := map[int64]float64{}
+		for _, p := range ps {
+			if v0, dup := seenTs[p.ts]; dup {
+				v.Kind, v.Detail = "out-timestamp-twice", fmt.Sprintf("series %s: two output points at %d (values %v and %v)", k, p.ts, v0, p.v)
+				return v
+			}
+			seenTs[p.ts] = p.v
+		}
 		es, ok := expByKey[k]
 		if !ok {
 			v.Kind, v.Detail = "out-unexpected-series", fmt.Sprintf("output series %s (e.g. value %v at %d) is not a series the definition produces; expected series: %v", k, ps[0].v, ps[0].ts, keys(expByKey))
